@@ -251,30 +251,41 @@ type convUse struct {
 }
 
 func errFailTests(errv ssa.Value) (func(ssax.Cond) bool, func(ssa.Value) (bool, bool)) {
-	// the tested value is the error itself, or a variable that holds either the error or nil (`var err error; if ... {
-	// v, err = conv() }; if err != nil`): non-nil there still means that the conversion failed
-	isErr := func(x ssa.Value) bool {
+	// the tested value is the error itself, or a variable that holds the error on every path on which the conversion ran
+	// (`var err error; if ... { v, err = conv() }; if err != nil`): what it holds on paths that bypass the conversion does
+	// not matter here (the value clause below looks at those), but `if c { err = nil }` after the conversion does
+	var convBlock *ssa.BasicBlock
+	if in, ok := errv.(ssa.Instruction); ok {
+		convBlock = in.Block()
+	}
+	var isErr func(x ssa.Value, depth int) bool
+	isErr = func(x ssa.Value, depth int) bool {
+		x = ssax.Strip(x)
 		if x == errv {
 			return true
 		}
+		ph, ok := x.(*ssa.Phi)
+		if !ok || convBlock == nil || depth > 4 {
+			return false
+		}
 		has := false
-		for _, l := range ssax.Leaves(x) {
-			switch {
-			case l == errv:
+		for k, e := range ph.Edges {
+			if isErr(e, depth+1) {
 				has = true
-			case ssax.IsNilConst(l):
-			default:
-				return false
+				continue
+			}
+			if pb := ph.Block().Preds[k]; ssax.Reaches(convBlock, pb, true) {
+				return false // on a path through the conversion the variable holds something else
 			}
 		}
 		return has
 	}
 	return func(cd ssax.Cond) bool {
 			x, nilIfTrue, isNT := nilTest(cd.Val)
-			return isNT && isErr(x) && cd.Truth != nilIfTrue
+			return isNT && isErr(x, 0) && cd.Truth != nilIfTrue
 		}, func(cond ssa.Value) (bool, bool) {
 			x, nilIfTrue, isNT := nilTest(cond)
-			if !isNT || !isErr(x) {
+			if !isNT || !isErr(x, 0) {
 				return false, false
 			}
 			return !nilIfTrue, true
